@@ -758,7 +758,7 @@ class C01(Prop):
     design_ref = "DESIGN.md section 5 / C01"
     rule = ("a (tree, Hamiltonian) group = random rooted tree of 1..7 nodes (random child order, dims in {1,2,3} incl. dimension-1 nodes, "
             "random attach order; all ordered shapes <= 5 nodes in thorough), 1..8 terms with supports of any size, shared labels, explicit "
-            "identities, coefficient mode unit/frac/sym/symshared, duplicate mode none/dup/prop/mixed, 35% with expanded products of local sums "
+            "identities, ~5% of the groups with one prefactor 0 and ~1% with only zero prefactors, coefficient mode unit/frac/sym/symshared, duplicate mode none/dup/prop/mixed, 35% with expanded products of local sums "
             "(low-rank coefficient matrices: the Gaussian elimination does real row/column operations), 25% start from a random SYMBOLIC "
             "coefficient matrix across one edge (entries rational x g1..g4 / rational / 0, one term per entry, shared/split/free symbol columns, rows "
             "proportional outside the first column: abandoned row additions next to accepted compressions), 20% use operator names with ambiguous "
@@ -802,8 +802,9 @@ class C01(Prop):
               "origin labels / subtree hash / alive child vertices of every frontier hyperedge, pairwise different hyperedges at the node whose child edges are cut, "
               "fresh names and hash-table extension; every merge of combine_subtrees satisfies the hypotheses of merge_equal_subtrees_sound and every cut satisfies "
               "cut_pre, so C01_cut_step_sound applies at every edge.  Not covered universally: two terms with the SAME string and different coefficients (re-hash "
-              "branch; next clause) and that the model returns Some (it returns None exactly where the implementation raises or leaves a dangling hyperedge, e.g. a "
-              "term with coefficient 0: a finding reported to the lead; checked per instance by the tie)"),
+              "branch; next clause) and that the model returns Some (it returns None exactly where the implementation raises or leaves a dangling hyperedge; checked "
+              "per instance by the tie).  Terms with prefactor 0 are included: code (repo commit 2e422fd) and model drop them before the compound diagram is built and "
+              "fall back to the BASE diagram of the full list when none remains; ham_denote is unchanged up to peq (ham_denote_live)"),
         ("F", "pipeline model, checked form: sd_denote is preserved by a combine_subtrees call whose merges satisfy the decidable form of the hypotheses of "
               "merge_equal_subtrees_sound (C01_combine_step_sound), and from_hamiltonian_bipartite t H = Some d with pipeline_ok t H = true (the step preconditions "
               "evaluated before every step of the run) implies sd_denote d = ham_denote H for every tree and term list "
@@ -852,6 +853,7 @@ class C01(Prop):
     # ------------------------------------------------------------------------------ generation
     def _groups(self, ctx, stream, budget_scale):
         rng = ctx.rng(stream)
+        rz = ctx.rng(stream + ":zero")        # [ext-C01D] separate stream for the zero prefactors (the other draws stay as they were) [/ext-C01D]
         groups = []
         cap = ctx.scale(150, 300)
         ngroups = ctx.scale(200, 2000) * budget_scale
@@ -888,6 +890,16 @@ class C01(Prop):
                 product = rng.random() < 0.5
             terms = random_terms(rng, phys, nterms, coefmode, dupmode, nlabels, product=product, amb=(ch if amb else None),
                                  gamma_on=(ch if gamma else None))
+            # [ext-C01D] zero prefactors (repo commit 2e422fd: SGE/BIPARTITE drop such terms, BASE fallback when none remains):
+            # ~5% of the groups get one term with prefactor 0 (numeric or with its symbol), ~1% only zero prefactors
+            z = rz.random()
+            if terms and z < 0.01:
+                for tm in terms:
+                    tm[0], tm[1] = 0, 1
+            elif terms and z < 0.06:
+                tm = terms[rz.randrange(len(terms))]
+                tm[0], tm[1] = 0, 1
+            # [/ext-C01D]
             struct = ("gamma+product" if product else "gamma") if gamma else ("product" if product else "random")
             groups.append({"children": ch, "phys": phys, "terms": terms, "nlabels": 3, "coefmode": coefmode, "dupmode": dupmode,
                            "struct": struct, "labelset": "amb" if amb else "std", "seed": rng.randrange(10 ** 6)})
@@ -936,6 +948,8 @@ class C01(Prop):
             c["exact_duplicates"] += bool(f.get("exact_dup"))
             c["same_string_not_dup"] += bool(f.get("same_string") and not f.get("exact_dup"))
             c["has_dim1_node"] += 1 in x["phys"]
+            c["zero_prefactor"] += any(t[0] == 0 for t in x["terms"])
+            c["all_prefactors_zero"] += bool(x["terms"]) and all(t[0] == 0 for t in x["terms"])
             c["max_support:" + str(max(len(t[3]) for t in x["terms"]))] += 1
         return dict(c)
 
